@@ -16,6 +16,35 @@ HDRF = """struct BufF { data: array<f32, 8> }
 """
 
 PROGRAMS = [
+# a scalar local assigned in an if-branch whose LAST statement is a switch with C-style `break;` in every clause, read after
+# the if (the branch falls through: a `break` leaves the switch only) - both arms, with and without an else, nested in a loop
+("if_branch_ends_in_switch_with_breaks", HDR + """
+@compute @workgroup_size(1) fn main() {
+  var x = buf.data[0];
+  let c = buf.data[1];
+  let s = buf.data[2];
+  if (c > 2u) { switch (s) { case 0u: { x = x + 1u; break; } case 1u, 2u: { x = x * 3u; break; } default: { x = 7u; break; } } }
+  buf.data[4] = x;
+  var y = buf.data[3];
+  if (c > 5u) { y = y + 100u; } else { y = y + 1u; switch (s) { case 0u: { y = y + 10u; break; } default: { break; } } }
+  buf.data[5] = y;
+  buf.data[6] = x + y;
+}
+"""),
+("if_branch_ends_in_switch_with_return_and_break", HDRI + """
+fn pick(c: i32, s: i32, x0: i32) -> i32 {
+  var x = x0;
+  if (c > 0) { x = x + 1; switch (s) { case 0: { x = x + 10; break; } case 1: { return -1; } default: { x = x - 2; break; } } }
+  return x;
+}
+@compute @workgroup_size(1) fn main() {
+  buf.data[4] = pick(buf.data[0], buf.data[1], buf.data[2]);
+  buf.data[5] = pick(buf.data[1], buf.data[0], buf.data[3]);
+  var t = buf.data[2];
+  if (buf.data[0] > 1) { switch (buf.data[1]) { case 0: { t = 11; break; } default: { t = t + 5; break; } } }
+  buf.data[6] = t;
+}
+"""),
 ("unused_fn_global", HDR + """
 @group(0) @binding(1) var<storage, read_write> other: Buf;
 var<private> counter: u32 = 3u;
@@ -543,6 +572,92 @@ fn bump(x: u32) -> u32 { buf.data[6] = buf.data[6] + 1u; return x + 1u; }
     case 0u, 1u, 2u, 3u: { buf.data[4] = 7u; }
     default: { buf.data[5] = bump(buf.data[5]); }
   }
+}
+"""),
+# CompactUnused removes `dead0`/`dead1` and the globals `unused_a`/`unused_b`: every later function and global handle
+# shifts, and the shifted handles sit in a `continuing` block, in switch case bodies (one of them with fall-through
+# selectors), in a nested block and in the LAST function / LAST global (remapStmtFuncHandles, globalRemap)
+("shifted_handles_in_continuing_and_cases", HDR + """
+@group(0) @binding(1) var<storage, read_write> unused_a: Buf;
+@group(0) @binding(2) var<storage, read_write> ticks: Buf;
+var<private> unused_b: u32 = 9u;
+var<private> last_global: u32 = 1u;
+fn dead0(x: u32) -> u32 { unused_a.data[0] = x; return x + 100u; }
+fn advance(i: u32) -> u32 { ticks.data[0] = ticks.data[0] + i; return i + 1u; }
+fn dead1(x: u32) -> u32 { unused_b = x; return dead0(x); }
+fn in_case(x: u32) -> u32 { ticks.data[1] = ticks.data[1] + 1u; return x * 2u; }
+fn in_block(x: u32) -> u32 { return x + last_global; }
+fn last_fn(x: u32) -> u32 { last_global = last_global + x; return last_global; }
+@compute @workgroup_size(1) fn main() {
+  var s: u32 = 0u;
+  for (var i: u32 = 0u; i < 3u; i = advance(i)) { s = s + buf.data[i]; }
+  var k: u32 = 0u;
+  loop {
+    if (k >= 4u) { break; }
+    switch (k) {
+      case 0u, 1u: { buf.data[3] = buf.data[3] + in_case(k); }
+      case 2u: { { buf.data[4] = buf.data[4] + in_block(k); } }
+      default: { buf.data[5] = buf.data[5] + last_fn(k); }
+    }
+    continuing { k = last_fn(k); }
+  }
+  buf.data[7] = s;
+  buf.data[6] = last_global;
+}
+"""),
+# InlineUserFunctions: statement kinds remapInlineStatementHandles does not renumber (Passes/InlineStale.v; recorded
+# findings inline:unremapped:*).  The reference interpreter does not model these statements: structural evidence only.
+("inline_callee_compare_exchange", """@group(0) @binding(0) var<storage, read_write> a: atomic<u32>;
+@group(0) @binding(1) var<storage, read_write> out: array<u32, 4>;
+fn helper(x: u32, y: u32) -> u32 {
+  let cmp = x + 1u;
+  let r = atomicCompareExchangeWeak(&a, cmp, y);
+  return r.old_value;
+}
+@compute @workgroup_size(1) fn main() {
+  let p = out[0];
+  let q = out[1];
+  let z = p * 3u;
+  out[2] = helper(p, q);
+  out[3] = z;
+}
+"""),
+("inline_callee_workgroup_uniform_load", """var<workgroup> w: u32;
+@group(0) @binding(1) var<storage, read_write> out: array<u32, 4>;
+fn helper(x: u32) -> u32 {
+  let v = workgroupUniformLoad(&w);
+  return v + x;
+}
+@compute @workgroup_size(1) fn main() {
+  let p = out[0];
+  let q = out[1] + p;
+  w = q;
+  out[2] = helper(p);
+}
+"""),
+# InlineUserFunctions: the initialiser of a callee local is the LAST handle of the callee's arena (Init remap boundary),
+# once read and once in a local that is never read
+("inline_local_init_last_handle", HDR + """
+fn helper(x: u32) -> u32 {
+  let y = x + 1u;
+  var t: u32 = 7u;
+  t = t + y;
+  return t;
+}
+fn late_init(x: u32) -> u32 {
+  let y = x * 2u;
+  var last: u32 = 9u;
+  return y;
+}
+fn reads_late(x: u32) -> u32 {
+  let y = x * 3u;
+  var last: u32 = 11u;
+  return y + last;
+}
+@compute @workgroup_size(1) fn main() {
+  buf.data[0] = helper(buf.data[1]);
+  buf.data[2] = late_init(buf.data[3]);
+  buf.data[4] = reads_late(buf.data[5]);
 }
 """),
 ("override_free_constants_chain", HDR + """
